@@ -21,7 +21,7 @@ LEAFW = [1, 1, 2, 3, 4, 7, 8, 9, 15, 16, 17, 31, 32, 33, 63, 64, 65, 100, 128, 2
 
 def plan(tier, seed):
   q = tier == "quick"
-  return [{"hashseed": (seed * 3 + i) % 991, "types": 60 if q else 900} for i in range(8 if q else 16)]
+  return [{"hashseed": (seed * 3 + i) % 991, "types": 120 if q else 1200} for i in range(8 if q else 16)]
 
 
 def thresholds(tier):
